@@ -21,7 +21,7 @@ TECHNIQUE = ("runtime monitoring: differential execution of the real code - farm
 RULE = ("seeded runner descriptions (1-2 outputs, internal dims from var_coords or from a constant, constants, resources, "
         "attrs, Dataset-returning functions) x grids / case lists / cases x sub-grids (<= 30 settings) x farmer kind "
         "(Runner, Harvester with pre-existing overlapping data and each overwrite policy, Sampler) x to_df x shuffle x "
-        "batching x reload of crop+farmer by name (in-process and in a fresh interpreter); a farmer constant changed between two sows of one Crop object; distinct by description and "
+        "batching x reload of crop+farmer by name (in-process and in a fresh interpreter); a farmer constant changed between two sows of one Crop object; grows as MPI rank 0; sow-time constants as dict / pairs / one-shot zip; decorated functions leaving a trace of their own; crops sown anew behind a long-lived Crop object; distinct by description and "
         "options; non-trivial when >= 2 batches")
 ASSUMPTIONS = [
     "Sampler twins draw the same cases because numpy's global RNG is seeded identically before each draw",
